@@ -95,7 +95,7 @@ def build_flavour(fl, verbose=False):
         raise SystemExit("static library not found for flavour " + fl)
     # cellsim
     srcs = COMMON_SRC + engine_sources() + spec["extra_src"]
-    inc = "-I{0}/src/api -I{1}/src/api -I{0}/src -I{2}".format(REPO, lib, SIM)
+    inc = "-I{0}/src/api -I{1}/src/api -I{0}/src -I{2} -isystem /root/miniconda/include/libxml2 -isystem /root/miniconda/include".format(REPO, lib, SIM)
     nin = ["cxx = " + spec["cxx"],
            "cxxflags = -std=c++17 -Wall -Wextra -Wno-unused-parameter " + cxxflags + " " + inc,
            "ldflags = " + spec["flags"] + " -L" + CONDA_LIB + " -Wl,-rpath," + CONDA_LIB,
@@ -265,6 +265,11 @@ def batches_for(prop, tier):
             Batch("import", "asan", 160 * (24 if q else 400), {"sweep": 1}, "import/single-fault-sweep"),
             Batch("import", "asan", 3000 if q else 120000, {}, "import/seeded-multi-fault"),
         ]
+    if prop == "C12":
+        return [
+            Batch("purity", "layout", 700 if q else 20000, {}, "purity/interleaved-clients+layout-twin+isolation"),
+            Batch("purity", "asan", 60 if q else 1500, {"probes": 0}, "purity/asan-smoke"),
+        ]
     if prop == "C13":
         return [
             Batch("annot", "asan", 6000 if q else 200000, {}, "annot/annotator-vs-editor"),
@@ -276,6 +281,7 @@ def batches_for(prop, tier):
             Batch("import", "asan", 160 * (8 if q else 100), {"sweep": 1, "sweepseed": 2}, "import/single-fault-sweep"),
             Batch("import", "asan", 2500 if q else 60000, {}, "import/seeded-multi-fault"),
             Batch("equiv", "layout", 300 if q else 5000, {}, "equiv/analyser-issues"),
+            Batch("purity", "layout", 250 if q else 6000, {"probes": 0, "layoutaux": 0}, "purity/parser-validator-analyser-printer-issues"),
         ]
     raise SystemExit("no check is defined for property " + prop)
 
@@ -283,6 +289,12 @@ def batches_for(prop, tier):
 LEVELS = {"C07": "fault_enumeration"}
 
 RULES = {
+    "C12": "one case = one simulated run: 2-4 client tasks whose scripts (parse / API-build / print / validate / analyse with external variables / generate C or Python / "
+           "resolve / flatten / clone / equals over documents of the repository's tests/resources corpus, <= 24 kB) are interleaved by the seeded scheduler, on fresh and on "
+           "reused service instances, under a seeded heap layout. Each run is preceded by auxiliary runs in fresh processes: the same plan under another allocator policy "
+           "(layout twin) and the dependency slices of up to two probe steps (isolation). Oracles: same call identity (op, documented instance state, digest of the argument's "
+           "canonical dump) => same observation; main run == layout twin; main run == isolation slice; arguments dump identically before/after; results still held are "
+           "re-dumped at the end. distinct = distinct event-log fingerprints; non-trivial = at least one cross-occurrence, twin or isolation comparison was made.",
     "C13": "one case = one simulated run: a generated model (1-5 components, units with unit items, resets, imports, equivalences; ids absent / unique / duplicated / "
            "auto-id shaped around the annotator's counter) shared by an annotator client (setModel, assignAllIds both overloads, assignIds for every type, every assignId "
            "overload, clearAllIds, lookup batteries, printModel(model, true)) and an editor client that sets or clears ids on any item kind (including exactly the next id the "
@@ -307,6 +319,10 @@ RULES = {
 }
 
 ASSUMPTIONS = {
+    "C12": ["documented state that is part of a call's identity: parser/importer strict flag, importer library (keys and model contents), import links of the model, "
+            "analyser external variables (set by the step itself), generator profile and model",
+            "libxml2's keep-blanks default is read through its public accessor only to label events (classification of the listed keep-blanks finding), never to decide a verdict",
+            "the asan smoke batch runs without layout twin and isolation slices (ASan owns the allocator)"],
     "C13": ["generated equivalences never put two variables of one component into the same equivalence class (no CellML document can express that, and the library's per-connection id storage is not defined for it)",
             "connection ids are observed through Variable::equivalenceConnectionId() of directly equivalent pairs (one connection = one pair of components)",
             "the return value of assignAllIds()/assignIds() ('something was assigned') is not checked: the property does not state it",
